@@ -301,7 +301,7 @@ func TestC18(t *testing.T) {
 	// due adds "now" to it only if every expired message was in fact unreachable afterwards (it
 	// collected, or there was nothing to tell); a collection is demanded only when it is due from
 	// every instant of the set.
-	nR := r.N(800, 40000)
+	nR := r.N(800, 6000)
 	for i := 0; i < nR; i++ {
 		if !r.Mine("R", i) {
 			continue
